@@ -1,6 +1,6 @@
 (* C06 — Source addresses print to strings that parse back to the same address.
    Only statements, each closed by [exact] of a lemma proved elsewhere. *)
-From Slug Require Import Base.Str Base.PathAlg Addr.Resolve Addr.ResolveProofs Addr.Url Addr.Parse Addr.ParseProofs Addr.RoundTrip Addr.RoundTripFinal Addr.RemoteParse Addr.RemoteTheorems Addr.Classify.
+From Slug Require Import Base.Str Base.PathAlg Base.Search Addr.Resolve Addr.ResolveProofs Addr.Url Addr.Parse Addr.ParseProofs Addr.RoundTrip Addr.RoundTripFinal Addr.RemoteParse Addr.RemoteTheorems Addr.Classify.
 
 (* ---- local addresses ---- *)
 (* a local address value is the text that was parsed: printing and parsing are inverse *)
@@ -113,27 +113,71 @@ Theorem C06_same_kind_final_registry :
 Proof. exact classify_final_registry. Qed.
 Print Assumptions C06_same_kind_final_registry.
 
-(* PARTIAL for ParseFinalSource: proved for printed remote addresses without '@' (with one, the
-   final parser first tries the text before the last '@' as a registry address; decided per
-   run by the addr stream's same-kind oracle, which has no such restriction) *)
+(* for ParseFinalSource too, wherever an '@' may occur in the printed text (path, query, sub-path):
+   the final parser first offers the text before the last '@' to the registry parser, which
+   refuses every text that begins "type::scheme://" (module_source_rejects_schemed) *)
 Theorem C06_same_kind_remote :
   forall p sub, wf_remoteb p sub = true ->
     outer_ascii (remote_string p sub) = true -> has_outer_space (remote_string p sub) = false ->
     parse_source (remote_string p sub) = Ok (ARemote p sub) /\
-    (~ In c_at (remote_string p sub) -> parse_final_source (remote_string p sub) = Ok (ARemote p sub)).
+    parse_final_source (remote_string p sub) = Ok (ARemote p sub).
 Proof. exact classify_remote. Qed.
 Print Assumptions C06_same_kind_remote.
 
-(* the registry parser refuses every structured remote text *)
+(* the registry parser refuses every text that starts with a lower-case "type::scheme://",
+   whatever follows *)
 Theorem C06_registry_parser_refuses_remote_text :
-  forall typ scheme host path sub query,
-    parts_ok typ scheme host path sub query -> to_lower typ = typ -> to_lower scheme = scheme ->
-    parse_module_source (remote_text typ scheme host path sub query) = Rej.
-Proof. exact module_source_rejects_structured. Qed.
+  forall typ scheme t,
+    type_okb typ = true -> scheme_ok scheme = true -> to_lower typ = typ -> to_lower scheme = scheme ->
+    parse_module_source ((type_prefix typ ++ scheme) ++ css ++ t) = Rej.
+Proof.
+  intros typ scheme t Ht Hs Hlt Hls.
+  destruct (pre_facts typ scheme Ht Hs Hlt Hls) as (H1 & H2 & H3 & _ & H5 & H6).
+  now apply module_source_rejects_schemed.
+Qed.
 Print Assumptions C06_registry_parser_refuses_remote_text.
 
 Example C06_same_kind_hypotheses_satisfiable : classify_example_check = true.
 Proof. exact classify_examples. Qed.
+
+(* ---- "two addresses are equal exactly when they print the same" ----
+   printing is injective on the values the round-trip theorems cover (a corollary: parse the
+   common text) *)
+Theorem C06_equal_iff_same_print_registry :
+  forall p sub p' sub',
+    wf_mpkgb p = true -> valid_sub sub -> ~ In c_qmark sub -> all_ascii sub = true ->
+    wf_mpkgb p' = true -> valid_sub sub' -> ~ In c_qmark sub' -> all_ascii sub' = true ->
+    (registry_string p sub = registry_string p' sub' <-> (p, sub) = (p', sub')).
+Proof.
+  intros p sub p' sub' H1 H2 H3 H4 H1' H2' H3' H4'. split; [|now intros [= -> ->]].
+  intros E. pose proof (registry_round_trip p sub H1 H2 H3 H4) as R.
+  rewrite E, (registry_round_trip p' sub' H1' H2' H3' H4') in R. now injection R as -> ->.
+Qed.
+Print Assumptions C06_equal_iff_same_print_registry.
+
+Theorem C06_equal_iff_same_print_remote :
+  forall p sub p' sub', wf_remoteb p sub = true -> wf_remoteb p' sub' = true ->
+    (remote_string p sub = remote_string p' sub' <-> (p, sub) = (p', sub')).
+Proof.
+  intros p sub p' sub' H H'. split; [|now intros [= -> ->]].
+  intros E. pose proof (remote_round_trip p sub H) as R.
+  rewrite E, (remote_round_trip p' sub' H') in R. now injection R as -> ->.
+Qed.
+Print Assumptions C06_equal_iff_same_print_remote.
+
+Theorem C06_equal_iff_same_print_final_registry :
+  forall p v sub p' v' sub',
+    wf_mpkgb p = true -> ~ In c_nl (m_host p) -> wf_version v = true ->
+    valid_sub sub -> ~ In c_qmark sub -> ~ In c_at sub -> ~ In c_nl sub -> all_ascii sub = true ->
+    wf_mpkgb p' = true -> ~ In c_nl (m_host p') -> wf_version v' = true ->
+    valid_sub sub' -> ~ In c_qmark sub' -> ~ In c_at sub' -> ~ In c_nl sub' -> all_ascii sub' = true ->
+    (final_registry_string p v sub = final_registry_string p' v' sub' <-> (p, v, sub) = (p', v', sub')).
+Proof.
+  intros p v sub p' v' sub' A1 A2 A3 A4 A5 A6 A7 A8 B1 B2 B3 B4 B5 B6 B7 B8. split; [|now intros [= -> -> ->]].
+  intros E. pose proof (final_registry_round_trip p v sub A1 A2 A3 A4 A5 A6 A7 A8) as R.
+  rewrite E, (final_registry_round_trip p' v' sub' B1 B2 B3 B4 B5 B6 B7 B8) in R. now injection R as -> -> ->.
+Qed.
+Print Assumptions C06_equal_iff_same_print_final_registry.
 
 (* ---- remote, registry and final registry addresses: where the statement fails ----
    The full statement "every value prints to text that parses back to it" is
